@@ -249,6 +249,12 @@ func frStream(id uint64, off uint64, data []byte) []byte {
 	return append(b, data...)
 }
 
+func frStreamFin(id uint64) []byte {
+	b := []byte{0x08 | 0x02 | 0x01}
+	b = quicvarint.Append(b, id)
+	return quicvarint.Append(b, 0)
+}
+
 func frNewCID(seq uint64) []byte { return frNewCIDRPT(seq, 0) }
 
 func frNewCIDRPT(seq, retirePriorTo uint64) []byte {
@@ -279,14 +285,25 @@ func frDatagram(l int) []byte {
 // ---- one probed connection --------------------------------------------------------------
 
 type aeEvent struct {
-	kind int // 0 data, 1 open, 2 cid, 3 datagram, 4 cid rotation (retire n, add one), 5 the client's own rotation
-	ty   int // data: 0 bidi-local 1 bidi-remote 2 uni; open: 1 bidi 2 uni
-	n    int64
+	kind int // 0 data, 1 open, 2 cid, 3 datagram, 4 cid rotation (retire n, add one), 5 the client's own rotation,
+	// harness-level (turned into the above, or into client actions, when executed):
+	// 6 the application reads n bytes, 7 the peer opens+finishes the next uni stream and the application consumes it,
+	// 8 data up to the window enforced NOW + n, 9 uni streams up to the limit enforced NOW + n
+	// 10 data whose n bytes are really sent (contiguously), so that the application can read them
+	ty int // data: 0 bidi-local 1 bidi-remote 2 uni; open: 1 bidi 2 uni
+	n  int64
+}
+
+// obsRec: one entry of a case's probe list: a model event and what was observed for it
+type obsRec struct {
+	coq  string
+	code int64
+	desc string
 }
 
 func (e aeEvent) coq() string {
 	switch e.kind {
-	case 0:
+	case 0, 10:
 		return u.App("EvData", u.Z(int64(e.ty)), u.Z(e.n))
 	case 1:
 		return u.App("EvOpen", u.Z(int64(e.ty)), u.Z(e.n))
@@ -301,7 +318,7 @@ func (e aeEvent) coq() string {
 }
 
 func (e aeEvent) String() string {
-	return fmt.Sprintf("%s(%d,%d)", []string{"data", "open", "cid", "dgram", "cid-rotate", "client-rotate"}[e.kind], e.ty, e.n)
+	return fmt.Sprintf("%s(%d,%d)", []string{"data", "open", "cid", "dgram", "cid-rotate", "client-rotate", "read", "finish-uni", "data-to-window", "open-to-limit", "data-contiguous"}[e.kind], e.ty, e.n)
 }
 
 // prober tracks what the (simulated) peer has used so far and turns abstract events into frames.
@@ -312,15 +329,19 @@ type prober struct {
 	cids      int64    // NEW_CONNECTION_ID frames sent
 	localOpen bool
 	trace     []string // the connection ID frames sent, for the failing-input report
+	contig    [3]int64 // bytes received contiguously from offset 0 (readable)
+	read      [3]int64 // bytes the application has read
+	sparse    [3]bool  // a gap exists: no more contiguous data on this stream
+	fail      func(key, desc string)
 }
 
 var dataStreamID = [3]uint64{0, 1, 3}
 
 func (p *prober) do(e aeEvent) (int64, string) {
 	switch e.kind {
-	case 0:
+	case 0, 10:
 		if e.ty == 0 && !p.localOpen {
-			if _, err := p.vc.C.OpenStream(); err != nil {
+			if err := p.vc.OpenLocal(); err != nil {
 				return -3, "OpenStream: " + err.Error()
 			}
 			p.localOpen = true
@@ -328,6 +349,25 @@ func (p *prober) do(e aeEvent) (int64, string) {
 		if e.ty != 0 && p.opened[e.ty] < 1 {
 			p.opened[e.ty] = 1
 		}
+		if e.kind == 10 && !p.sparse[e.ty] {
+			// the bytes for real, in frames that fit a packet
+			chunk := make([]byte, 1100)
+			for i := range chunk {
+				chunk[i] = byte(i)
+			}
+			for left := e.n; left > 0; {
+				k := min(left, int64(len(chunk)))
+				code, msg := p.vc.Frames(frStream(dataStreamID[e.ty], uint64(p.usedSD[e.ty]), chunk[:k]))
+				if code != 0 {
+					return code, msg
+				}
+				p.usedSD[e.ty] += k
+				p.contig[e.ty] += k
+				left -= k
+			}
+			return 0, ""
+		}
+		p.sparse[e.ty] = true
 		p.usedSD[e.ty] += e.n
 		return p.vc.Frames(frStream(dataStreamID[e.ty], uint64(p.usedSD[e.ty]-1), []byte{0x5a}))
 	case 1:
@@ -377,8 +417,108 @@ func (p *prober) normalize(e aeEvent) (aeEvent, bool) {
 			e.n = int64(1 + queued)
 		}
 		return e, e.n >= 1
+	case 8:
+		// data on stream ty up to (the window the client enforces right now) + n
+		if e.ty == 0 && !p.localOpen || e.ty != 0 && p.opened[e.ty] < 1 {
+			return e, false
+		}
+		w := p.vc.EnforcedNow(1 + e.ty)
+		if w < 0 || w >= 1<<61 { // offsets near 2^62 are outside the model (frame encoding limits)
+			return e, false
+		}
+		n := w + e.n - p.usedSD[e.ty]
+		return aeEvent{kind: 0, ty: e.ty, n: n}, n >= 1
+	case 9:
+		n := p.vc.EnforcedNow(5) + e.n - p.opened[2]
+		if n > 3000 {
+			return e, false
+		}
+		return aeEvent{kind: 1, ty: 2, n: n}, n >= 1
+	case 7:
+		return e, p.opened[2] >= 1 // stream number 1 is the data stream, it is not finished
+	case 6:
+		return e, p.contig[e.ty]-p.read[e.ty] > 0
 	}
 	return e, true
+}
+
+var advenfKindCoq = []string{"KConn", "KSD0", "KSD1", "KSD2", "KSB", "KSU", "KCID"}
+
+// flushed turns the control frames the client wants to send into the game's client events,
+// each with the limit the connection enforces afterwards.
+func (p *prober) flushed() (recs []obsRec, retired int) {
+	for _, f := range p.vc.Flush() {
+		k := -1
+		var v int64
+		switch fr := f.(type) {
+		case *wire.MaxDataFrame:
+			k, v = 0, int64(fr.MaximumData)
+		case *wire.MaxStreamDataFrame:
+			for i, id := range dataStreamID {
+				if uint64(fr.StreamID) == id {
+					k, v = 1+i, int64(fr.MaximumStreamData)
+				}
+			}
+		case *wire.MaxStreamsFrame:
+			k, v = 4, int64(fr.MaxStreamNum)
+			if fr.Type == protocol.StreamTypeUni {
+				k = 5
+			}
+		case *wire.RetireConnectionIDFrame:
+			retired++
+		}
+		if k >= 0 {
+			now := p.vc.EnforcedNow(k)
+			recs = append(recs, obsRec{u.App("EvGrant", advenfKindCoq[k], u.Z(v)), now, fmt.Sprintf("%T{%d}", f, v)})
+			// property monitor: the limit just advertised must be enforced (at least)
+			if now < v && p.fail != nil {
+				p.fail("advenf/grant-not-enforced/"+advenfKindCoq[k], fmt.Sprintf("the client sent %T with %d but enforces %d: a peer using the new credit gets an error", f, v, now))
+			}
+		}
+	}
+	return recs, retired
+}
+
+// exec runs one (normalized) event and returns the probe-list entries it produces: the model
+// event with the observed code, followed by the client events the connection emitted.
+func (p *prober) exec(e aeEvent, fail func(key, desc string)) (recs []obsRec, code int64, msg string) {
+	switch e.kind {
+	case 6:
+		n := min(e.n, p.contig[e.ty]-p.read[e.ty])
+		got, err := p.vc.ReadStream(int64(dataStreamID[e.ty]), int(n))
+		p.read[e.ty] += int64(got)
+		if err != nil || int64(got) != n {
+			fail("advenf/read", fmt.Sprintf("application read %d of %d contiguous bytes on stream %d: %v", got, n, dataStreamID[e.ty], err))
+		}
+	case 7:
+		// the peer opens the next uni stream and finishes it at once; the application accepts and
+		// consumes it, which frees a stream slot (MAX_STREAMS)
+		p.opened[2]++
+		id := 3 + 4*uint64(p.opened[2]-1)
+		code, msg = p.vc.Frames(frStreamFin(id))
+		recs = append(recs, obsRec{u.App("EvOpen", "2", "1"), code, fmt.Sprintf("finish-uni(%d)", id)})
+		if code != 0 {
+			return recs, code, msg
+		}
+		p.vc.ReadStream(int64(id), 1) // returns io.EOF
+	case 5:
+		code, msg = p.do(e)
+		r, retired := p.flushed()
+		_, queued := p.vc.CIDState()
+		if retired != 1 {
+			fail("advenf/retire-frame", fmt.Sprintf("the client switched connection IDs and queued %d RETIRE_CONNECTION_ID frames (expected 1)", retired))
+		}
+		recs = append(recs, obsRec{e.coq(), int64(1 + queued), e.String()})
+		return append(recs, r...), 0, ""
+	default:
+		code, msg = p.do(e)
+		recs = append(recs, obsRec{e.coq(), code, e.String()})
+		if code != 0 {
+			return recs, code, msg
+		}
+	}
+	r, _ := p.flushed()
+	return append(recs, r...), 0, ""
 }
 
 // ---- case generation ------------------------------------------------------------------
@@ -549,6 +689,26 @@ func genAeCfg(r *u.Rng, adv [kNum]int64) aeCfg {
 	return c
 }
 
+// gridCfg: Config number g of the grid around the advertised values: each of
+// InitialStreamReceiveWindow (vs the largest advertised stream value), InitialConnectionReceiveWindow,
+// MaxIncomingStreams, MaxIncomingUniStreams, MaxIdleTimeout at advertised-1 / advertised / advertised+1,
+// EnableDatagrams off / on.
+func gridCfg(g int, adv [kNum]int64) aeCfg {
+	lvl := func(base int64) int64 {
+		d := int64(g%3) - 1
+		g /= 3
+		return max(base+d, 1)
+	}
+	var c aeCfg
+	c.ISW = uint64(lvl(max(adv[kSDBidiLocal], adv[kSDBidiRemote], adv[kSDUni])))
+	c.ICW = uint64(lvl(adv[kMaxData]))
+	c.MIS = lvl(adv[kStreamsBidi])
+	c.MIUS = lvl(adv[kStreamsUni])
+	c.Idle = time.Duration(lvl(adv[kIdleMs])) * time.Millisecond
+	c.DG = g%2 == 1
+	return c
+}
+
 // goEnforced: this harness's own reading of the populated Config (only used to choose
 // boundary values and to label monitor keys; the verdicts never depend on it).
 func goEnforced(p quic.VerifAdvEnfCfg) (e [kNum]int64) {
@@ -613,7 +773,35 @@ func genEvents(r *u.Rng, adv, enf [kNum]int64) []aeEvent {
 		return c[r.Intn(len(c))]
 	}
 	for i := 0; i < n; i++ {
-		switch r.Intn(7) {
+		switch r.Intn(10) {
+		case 7, 8:
+			// the peer sends real data, the application reads it (window updates), then the peer goes
+			// to the boundary of the window enforced at that moment
+			ty := r.Intn(3)
+			w := enf[kSDBidiLocal+ty]
+			nn := []int64{w/4 + 1, w / 2, w, w/4 - 1, int64(r.Range(1, 3000))}[r.Intn(5)]
+			nn = min(nn, 4<<20, enf[kSDBidiLocal+ty]-usedSD[ty], enf[kMaxData]-usedConn)
+			if nn < 1 {
+				break
+			}
+			usedSD[ty] += nn
+			usedConn += nn
+			if ty != 0 && opened[ty] < 1 {
+				opened[ty] = 1
+			}
+			evs = append(evs, aeEvent{kind: 10, ty: ty, n: nn})
+			evs = append(evs, aeEvent{kind: 6, ty: ty, n: []int64{nn, nn, nn / 2, 1}[r.Intn(4)]})
+			if r.Bool() {
+				evs = append(evs, aeEvent{kind: 6, ty: ty, n: nn})
+			}
+			evs = append(evs, aeEvent{kind: 8, ty: ty, n: int64(r.Intn(2))})
+		case 9:
+			// the peer opens and finishes uni streams, the application consumes them (MAX_STREAMS),
+			// then the peer opens streams up to the limit enforced at that moment
+			for j := r.Range(1, 3); j > 0; j-- {
+				evs = append(evs, aeEvent{kind: 7})
+			}
+			evs = append(evs, aeEvent{kind: 9, n: int64(r.Intn(2))})
 		case 5:
 			// the peer rotates: retires k stored IDs (incl. the one in use), adds one
 			k := []int64{1, 1, 2, cids}[r.Intn(4)]
@@ -851,11 +1039,20 @@ func runAdvEnf(w *bufio.Writer, seed uint64, n int, args []string) {
 	for _, p := range parrotNames {
 		clients = append(clients, "derived:"+p)
 	}
-	for i := 0; i < n; i++ {
+	// thorough tier: after the n drawn cases, exhaustively every built-in parrot x the grid of
+	// Configs with each field below / at / above the advertised value (3^5 x EnableDatagrams)
+	const gridPer = 3 * 3 * 3 * 3 * 3 * 2
+	total := n
+	if thorough {
+		total += gridPer * len(parrotNames)
+	}
+	for i := 0; i < total; i++ {
 		cr := r.Fork()
 		// the first len(clients) cases: every client under the default Config
 		var client string
-		if i < len(clients) {
+		if i >= n {
+			client = parrotNames[(i-n)/gridPer]
+		} else if i < len(clients) {
 			client = clients[i]
 		} else {
 			client = clients[cr.Intn(len(clients))]
@@ -898,7 +1095,10 @@ func runAdvEnf(w *bufio.Writer, seed uint64, n int, args []string) {
 			es0, _ := parseTPs(ext0)
 			adv0, _ := advertisedOf(es0)
 			var cfg aeCfg
-			if i >= len(clients) {
+			if i >= n {
+				cfg = gridCfg((i-n)%gridPer, adv0)
+				dist["cfg=grid"]++
+			} else if i >= len(clients) {
 				cfg = genAeCfg(u.NewRng(cfgSeed), adv0)
 			}
 			desc := fmt.Sprintf("case=%d client=%s %s peerIdle=%v", i, client, cfg, peer.MaxIdleTimeout)
@@ -1011,14 +1211,24 @@ func runAdvEnf(w *bufio.Writer, seed uint64, n int, args []string) {
 				if !ok {
 					continue
 				}
-				code, _ := pr.do(e)
-				obs = append(obs, u.Pair(e.coq(), u.Z(code)))
-				evStrs = append(evStrs, fmt.Sprintf("%s=>%d", e, code))
+				pr.fail = func(key, d string) { monfail(key, d, desc) }
+				recs, code, _ := pr.exec(e, pr.fail)
+				for _, rc := range recs {
+					obs = append(obs, u.Pair(rc.coq, u.Z(rc.code)))
+					evStrs = append(evStrs, fmt.Sprintf("%s=>%d", rc.desc, rc.code))
+					if strings.HasPrefix(rc.coq, "(EvGrant") {
+						dist["client-grant"]++
+					}
+				}
+				if e.kind == 5 {
+					dist["client-retire-cid"]++
+				}
 				if code != 0 {
 					sawErr = true
 					break
 				}
 			}
+			deadline, pto3 := vc.IdleDeadline()
 			ov := "None"
 			if rec.HasOverride {
 				ov = u.Opt(true, u.Hex(rec.ClientOverride))
@@ -1028,7 +1238,7 @@ func runAdvEnf(w *bufio.Writer, seed uint64, n int, args []string) {
 				nt = 1
 			}
 			fmt.Fprintf(w, "CASE %d %s\n", nt, u.App("AdvCase", u.B(specDriven), u.List(plist), u.List(suppress), u.B(randomize), u.Hex(vc.SrcConnID), cfg.coq(), u.Z(int64(peer.MaxIdleTimeout)),
-				u.Hex(ext), ov, u.ZList(adv[:]), u.ZList(recVals[:]), enfList, u.Z(enf.IdleTimeout), u.List(obs)))
+				u.Hex(ext), ov, u.ZList(adv[:]), u.ZList(recVals[:]), enfList, u.Z(enf.IdleTimeout), u.Z(int64(deadline)), u.Z(int64(pto3)), u.List(obs)))
 			if i < 3 || i == len(clients) {
 				fmt.Fprintf(w, "SAMPLE\t%s adv=%v enforced=%+v probes=%v\n", desc, adv, enf, evStrs)
 			}
